@@ -9,6 +9,7 @@ ASSUMPTIONS = [
 ]
 
 M = "a*+?()[]|\\.^$-{}1,:<>P"
+MUST07 = {r"\bx", r"x\b", r"(?m)^ab", r"(?m)ab$", r"\Bx", r"\b[ab]+\b"}
 HP = [r"a+b", r"(a|b)*c", r"[a-c]{1,2}", r"(?i)a\b"]
 
 
@@ -17,7 +18,9 @@ def items(tier):
     L = 3 if tier == "quick" else 4
     ents = corpus.entries(tier)
     if tier == "quick":
-        ents = ents[::2]
+        # every second entry, plus the look-around patterns of the NFA strategy with the pooled backtracker (call sequences
+        # that leave an offset in the pooled state: enumeration first, boolean call last)
+        ents = ents[::2] + [e for i, e in enumerate(ents) if i % 2 == 1 and e[0] in MUST07]
     for p, strat, tags in ents:
         if tier == "quick" and p in (r".*[ab]",):
             out.append(mk("C07", p, "search", 2, "", strategy=strat))
